@@ -1379,6 +1379,19 @@ def r_arg_one(P, u, rep):
             ok = ok and len(lst) >= len(want) and all(a is b for a, b in zip(lst, want))
             A.ob('R09.5', '%s:%s:result-list' % (U, fn), ok,
                  'the returned argument is not exactly the copied tokens in order followed by new_eof(terminator) (got %d list cells for %d copies)' % (len(lst), len(copies_made)), where, facts)
+            # R09.18: the argument is what # spells: every token after the first keeps the white space it was read with
+            # (the flag of the first token is never looked at: join_tokens skips it and subst stamps the parameter's)
+            if ok:
+                for k_, c_ in enumerate(copies_made):
+                    src_ = c_.meta.get('copy_of') if isinstance(c_, Obj) else None
+                    if k_ == 0 or src_ is None:
+                        continue
+                    verdict, v_ = _hs_store_verdict(it, ctx, c_, src_)
+                    if verdict == 'unknown':
+                        rep.undecided('R09.18', '%s:%s:argument-token-has_space-kept' % (U, fn), 'has_space of a collected argument token is written with a value the rule cannot relate to the token it copies (%s)' % _hs_text(v_), where=where)
+                        continue
+                    A.ob('R09.18', '%s:%s:argument-token-has_space-kept' % (U, fn), verdict == 'kept',
+                         'token %d of a macro argument is collected with %s in has_space instead of the flag the tokenizer gave it: #x and every later stringification spell the argument with other white space than the program wrote (S(a + b) must give "a + b", S(a+b) "a+b")' % (k_, _hs_text(v_)), where, facts)
     A.flush()
     if nret == 0:
         rep.undecided('R09.5', '%s:%s:no-return-path' % (U, fn), 'no path of %s returns an argument' % fn, where=where)
@@ -1833,9 +1846,10 @@ def r_white_space(P, rep):
         if f not in u.functions:
             raise AnalysisBroken('anchor %s vanished' % f)
     states = sorted(set(a['final'] for a in arms if a['kind'] == 'newline' and a['init'][0] == 0 and all(isinstance(x, int) for x in a['final'])))
-    rewr = [m.name for f in ('read_macro_arg_one', 'read_macro_args') for b in u.fn(f).walk()
+    # (what read_macro_arg_one itself leaves in has_space of the tokens it collects is decided path by path: R09.18 argument-token-has_space-kept)
+    rewr = [m.name for f, fl in (('read_macro_arg_one', ('at_bol',)), ('read_macro_args', ('at_bol', 'has_space'))) for b in u.fn(f).walk()
             if b.kind in ('BinaryOperator', 'CompoundAssignOperator') and b.opcode and b.opcode.endswith('=') and b.opcode not in ('==', '!=', '<=', '>=')
-            for m in [b.inner[0].strip()] if m.kind == 'MemberExpr' and m.name in ('at_bol', 'has_space')]
+            for m in [b.inner[0].strip()] if m.kind == 'MemberExpr' and m.name in fl]
     wj = '%s:%d' % (U, u.fn('join_tokens').line)
     if rewr:
         rep.undecided('R09.9', '%s:join_tokens:newline-inside-argument' % U, 'the argument reader rewrites %s of the tokens it copies; the rule cannot tell which flag state reaches join_tokens' % sorted(set(rewr)), where=wj)
